@@ -123,6 +123,18 @@ def run(ctx):
     mdiffs, mbad = MF.judge_c02(ctx, mrecs, known, hits)
     for r, det in mbad:
         unexpl.append(({"name": "message", "value": r["line"]}, det))
+    # a built message has exactly one Date and one From (and no MIME-Version for a raw body), whatever the call sequence - in particular
+    # with an explicitly supplied envelope, with several From mailboxes and a Sender, with no From at all (then building must fail)
+    import c01
+    bseqs = [[("envelope", "r@x.org", ["e@x.org"])], [("envelope", None, ["e@x.org"]), ("to", None, "t@x.org")], [("envelope", "r@x.org", ["e@x.org"]), ("sender", None, "s@x.org")],
+             [("from", None, "a@x.org"), ("from", None, "b@x.org"), ("envelope", "r@x.org", ["e@x.org"])], [("from", None, "a@x.org"), ("envelope", None, ["e@x.org"])],
+             [("from", "N", "a@x.org"), ("from", None, "b@x.org"), ("sender", None, "s@x.org"), ("to", None, "t@x.org")], [("to", None, "t@x.org")], [("sender", None, "s@x.org"), ("to", None, "t@x.org")]]
+    bseqs += [q for q in c01.gen(ctx)[:600] if not any(c01.c17.known_class(o[1], o[2]) for o in q if o[0] in c01.KINDS)][:300]
+    bres = run_impl(["builder.ops\t" + ";".join(c01.op_s(o) for o in q) for q in bseqs])
+    ctx.count(len(bseqs))
+    bbad = [(q, r) for q, r in zip(bseqs, bres) if r.startswith("ok\t") and r.split("\t")[4] != "date=1,from=1,mime=0" or r == "PANIC"]
+    for q, r in bbad:
+        unexpl.append(({"name": "message", "value": repr(q)}, "built message does not have exactly one Date and one From field (and no MIME-Version for a raw body): %s" % r.split("\t")[-1]))
     # one field per name, whatever the letter case of later set calls (header map operations)
     hn = ["Subject", "subject", "SUBJECT", "sUBJECT", "X-Priority", "x-priority", "X-priority", "Date", "date", "Message-ID", "Message-Id"]
     ol = []
@@ -150,7 +162,8 @@ def run(ctx):
                                  "msg.full": {"messages": len(mrecs), "disagreements": len(mdiffs)},
                                  "hdr.ctype": {"cases": len(tl), "accepted_by_the_media_type_parser": len(tok), "disagreements": len(tdiff)}}
     ctx.cov["oracle"] = {"rfc5322_field_splitter_and_line_judge_on_impl": {"cases": len(ok_recs) + len(mok) + len(ci) + len(tok), "unexplained": len(unexpl), "known_class_hits": dict(hits)},
-                         "header_name_iff_ftext": {"cases": len(nstrs), "failures": len(nbad)}}
+                         "header_name_iff_ftext": {"cases": len(nstrs), "failures": len(nbad)},
+                         "one_date_one_from_per_built_message": {"call_sequences": len(bseqs), "built": sum(1 for r in bres if r.startswith("ok")), "failures": len(bbad)}}
     ctx.cov["exhaustive"] = True
     ctx.cov["rule"] = ("HeaderValue::new over all strings of up to %d atoms from %s under several names, boundary/alignment families (every code-point width at every fold offset, blank runs 0..99, words to 2000, 64 KiB values, all name lengths 1..76), "
                        "mailbox-list headers, Content-Disposition file names, whole messages built through the public API (subject, message id, in-reply-to, references, user agent, comments, a custom header type, display name, attachment file name, content id: fields byte-identical to the model's, in insertion order, part headers included), Content-Type built from text with non-ASCII quoted parameters (name, boundary, custom; compared with the model's encoder applied to the media type string), header-name constructor over a 12-symbol alphabet; model vs implementation, then the extracted RFC 5322 field splitter and a byte/line-length judge on the implementation's output; "
